@@ -10,7 +10,7 @@ EXTENDS SchedEnv, TraceLib, Units, Json, IOUtils
 Batch == JsonDeserialize(IOEnv.TRACE_FILE)
 Traces == Batch.traces
 
-VARIABLES t, i, st
+VARIABLES t, i, st, aux
 
 CanonSrv(j) == [cap |-> j.cap, free |-> j.free, state |-> j.state, since |-> j.since,
                 label |-> j.label, traits |-> SetOf(j.traits), vu |-> j.vu,
@@ -48,6 +48,18 @@ Flatten(qs) == IF qs = <<>> THEN <<>> ELSE Head(qs) \o Flatten(Tail(qs))
 F(name, holds) == IF holds THEN {} ELSE {name}
 E(name, cond) == IF cond THEN {name} ELSE {}
 
+(* the observer's own record of when each server went down *)
+DownOf(s0) == [s \in {x \in SrvNames(s0) : s0.servers[x].state = "down"} |-> s0.servers[s].since]
+Without(f, s) == [x \in DOMAIN f \ {s} |-> f[x]]
+With(f, s, v) == [x \in DOMAIN f \cup {s} |-> IF x = s THEN v ELSE f[x]]
+AuxNext(a, pre, line, post) ==
+  IF "exc" \in DOMAIN line THEN a
+  ELSE IF line.ev = "Down" /\ line.args[1] \in SrvNames(pre)
+  THEN IF pre.servers[line.args[1]].state = "down" THEN a ELSE With(a, line.args[1], post.clock)
+  ELSE IF line.ev \in {"Up", "Freeze", "RemoveServer", "AddServer"} THEN Without(a, line.args[1])
+  ELSE IF line.ev = "L2" THEN DownOf(post)
+  ELSE a
+
 CycleFail(pre, line, post) ==
   LET q == Flatten(line.queues)
       pl == line.placement IN
@@ -60,7 +72,7 @@ CycleFail(pre, line, post) ==
   \cup F("C05.placedHas", C05placedHas(post)) \cup F("C05.pendingNone", C05pendingNone(post))
   \cup F("C05.avail", C05avail(post))
   \cup F("C07.justified", C07justified(pre, post, q))
-  \cup F("C08.keep", C08keep(pre, post, q)) \cup F("C08.expire", C08expire(pre, post))
+  \cup F("C08.keep", C08keep(pre, post, q, aux)) \cup F("C08.expire", C08expire(pre, post, aux))
   \cup F("C08.frozenKeep", C08frozenKeep(pre, post, q))
   \cup F("C08.frozenNoNew", C08frozenNoNew(pre, post))
   \cup F("C08.blacklist", C08blacklist(post))
@@ -111,13 +123,15 @@ Verdict(pre, line, post) ==
 Init == /\ t \in DOMAIN Traces
         /\ i = 1
         /\ st = Canon(Traces[t].lines[1].post)
+        /\ aux = DownOf(Canon(Traces[t].lines[1].post))
 
 Next == /\ i < Len(Traces[t].lines)
         /\ i' = i + 1
         /\ t' = t
         /\ st' = Canon(Traces[t].lines[i + 1].post)
+        /\ aux' = AuxNext(aux, st, Traces[t].lines[i + 1], st')
         /\ LET v == Verdict(st, Traces[t].lines[i + 1], st') IN
            PrintT(ToJson([tid |-> Traces[t].tid, i |-> i, fail |-> v.fail, ex |-> v.ex]))
 
-Spec == Init /\ [][Next]_<<t, i, st>>
+Spec == Init /\ [][Next]_<<t, i, st, aux>>
 =============================================================================
